@@ -5,6 +5,15 @@ from __future__ import annotations
 import ast
 
 CONSTRUCTS = {
+    'names_without_ascii_letters': 'π = 3.14\n\n\ndef Δ(x):\n    return x\n\n\nclass Ω:\n    pass\n\n\nprint(π, Δ(1), Ω)\n',
+    'else_with_blank_before_colon': 'def f(x):\n    if x:\n        return 1\n    else :\n        y = 2\n    return y\n\n\nfor i in range(2):\n    if i:\n        continue\n    else :\n        print(i)\nprint(f(0))\n',
+    'typevar_tuple_assignment': "from typing import TypeVar\nT, U = TypeVar('T'), TypeVar('U')\nK = TypeVar('K')\nprint(T, U, K)\n",
+    'fstring_with_doubled_braces': 'x = 1\nprint(f"{{}} {{{x}}}", f\'{{x}}\', f\'{{{{}}}}{x}\')\n',
+    'bare_raise_in_handler': "def f():\n    try:\n        return 1\n    except ValueError:\n        raise\n    except (KeyError, IndexError):\n        print('k')\n        raise\n\n\ntry:\n    pass\nexcept:\n    raise ValueError()\nprint(f())\n",
+    'nested_unpackings': 'd = {1: 2}\nprint({*{**d}}, [*(*d,)], {**{**d}}, (*[*d],))\n',
+    'augmented_loops': 'x = 0\ny = 1\nz = []\nfor i in range(3):\n    x -= i\nfor i in range(1, 3):\n    y //= i\nfor i in range(3):\n    z *= 2\nprint(x, y, z)\n',
+    'star_import_from_main': "from __main__ import *\nfrom os.path import *\nprint(join('a', 'b'))\n",
+    'math_sums': 'print(sum(x % 3 for x in range(10)), sum(not x for x in range(3)), sum([1, 2] == x for x in range(3)), sum(2 ** x for x in range(10)), sum(x ** x for x in range(4)))\n',
     # methods whose parameters are positional-only, self / cls unused
     "posonly_methods": 'class Shape:\n    def area(self, /):\n        return 1\n\n    def scale(self, /, *, factor=2):\n        return factor\n\n    @classmethod\n    def make(cls, /):\n        return 3\n\n    def both(self, other, /, extra=None, *rest, **more):\n        return other\n\n\nprint(Shape().area(), Shape().scale(factor=3), Shape.make(), Shape().both(4))\n',
     "masked_literals_with_simple_escapes": 's = "name\tvalue\\n"\nt = \'\'\'two\\tlines \\\\ here\\n\nsecond\tline\'\'\'\nprint(repr(s), repr(t))\n',
@@ -65,7 +74,7 @@ CONSTRUCTS = {
     "pandas_like": "import pandas as pd\nfor i, row in df.iterrows():\n    print(row['a'])\nx = df.loc[0, 'a']\ny = df.iloc[0, 1]\n",
 }
 
-ADVERSARIAL_CONSTANTS = [
+ADVERSARIAL_CONSTANTS = ["10 ** 10 ** 8", "9 ** 9 ** 9", "1 << 10 ** 9", "'ab' * 10 ** 12 == ''", "sum(1 // 0 for x in range(10))", "pow(2, 10 ** 10)", 
     "1/0", "1 < 'a'", "[] + 1", "2**10**6", "'a' * 10**8", "print(1)", "exit()", "input()", "open('c04_probe', 'w')", "1 // 0", "1 % 0",
     "int('x')", "[][0]", "{}['k']", "None.attr", "-'a'", "~1.5", "not []", "() < ()", "'a' in 1", "1 in 'a'", "len(5)", "abs('a')", "max([])",
     "float('inf') - float('inf')", "0 ** -1", "1 << -1", "1 << 10**6", "range(10**12)", "list(range(10**7))", "[0] * 10**8", "hash([])",
